@@ -385,10 +385,28 @@ def scripts_for(tier):
 
 def run(ctx):
     cases = shuffled(scripts_for(ctx.tier), ctx.seed, "c03")
-    bound = 1 if ctx.quick else 2
-    cap = 40000 if ctx.quick else 1500000
-    st = dfs.explore(ctx, MOD, "run_case", cases, bound, cap=cap, chunksize=4)
-    ctx.note("deviation bound %d: executions=%d capped=%s scripts=%d" % (bound, st.executions, st.capped, len(cases)))
+    if ctx.quick:
+        bound = 1
+        cap = 40000
+        st = dfs.explore(ctx, MOD, "run_case", cases, bound, cap=cap, chunksize=4)
+        ctx.note("deviation bound %d: executions=%d capped=%s scripts=%d" % (bound, st.executions, st.capped, len(cases)))
+    else:
+        # sized by measurement: every script of the thorough grammar with <= 1 deviation, and the scripts of the quick
+        # grammar (all structures up to two messages, restarts, a ninth of the three-message structures) with <= 2
+        bound = 2
+        cap = 600000
+        core = shuffled(scripts_for("quick"), ctx.seed, "c03")
+        st1 = dfs.explore(ctx, MOD, "run_case", cases, 1, cap=cap, chunksize=4)
+        ctx.note("deviation bound 1: executions=%d capped=%s scripts=%d" % (st1.executions, st1.capped, len(cases)))
+        st = dfs.explore(ctx, MOD, "run_case", core, 2, cap=cap, chunksize=4)
+        ctx.note("deviation bound 2: executions=%d capped=%s scripts=%d" % (st.executions, st.capped, len(core)))
+        st.executions += st1.executions
+        st.points += st1.points
+        st.max_points = max(st.max_points, st1.max_points)
+        st.observations |= set(("b1",) + tuple(o) for o in st1.observations)
+        st.capped = st.capped or st1.capped
+        for k, n in st1.by_preemptions.items():
+            st.by_preemptions[k] = st.by_preemptions.get(k, 0) + n
     a = run_case(cases[0], (0, {}))
     b = run_case(cases[0], (0, {}))
     if a[0] != b[0] or a[2] != b[2] or [x[0] for x in a[1]] != [x[0] for x in b[1]]:
